@@ -3,7 +3,7 @@
 # (VERIF_REPO / VERIF_OUT point away from /repo and /verif, so this can run next to a sweep on the real tree)
 id="$1"; patch="$2"; t="${3:-quick}"
 w=/tmp/mutrepo_$$; o=/tmp/mutout/$id
-git -C /repo worktree add -q --detach $w HEAD || exit 9
+git -C /repo worktree add -q --detach $w ${MUT_BASE:-HEAD} || exit 9
 mkdir -p $o
 cd $w && { git apply --3way "$patch" 2>/dev/null || git apply "$patch" || { echo "PATCH DOES NOT APPLY"; cd /; git -C /repo worktree remove --force $w; exit 8; }; }
 cd /verif && VERIF_REPO=$w VERIF_OUT=$o VERIF_TIER="$t" ./check "$id" > $o/last.out 2>&1; rc=$?
